@@ -139,7 +139,7 @@ def gen_jobs(rng, tier: str) -> list[dict]:
                 if name == 'syntax-error':
                     continue            # a code object cannot be built from it
                 jobs.append(make_job(lambda p, r, s=src: s, set(), 'fixed:' + name, 'code', pol, True, True, rng))
-    max_size, nrand, per = (2, 60, 1) if tier == 'quick' else (3, 450, 1)
+    max_size, nrand, per = (2, 60, 1) if tier == 'quick' else (3, 250, 1)
     blocks = list(progen.enumerate_programs(max_size))
     if tier == 'quick':
         # all programs of size 1, a third of the programs of size 2 (rotating with the seed)
@@ -188,10 +188,11 @@ def real_traces(res: dict) -> dict:
             tr[t]['calls'].append([e['event'], e['line_no'], e['file_name']])
         elif ty == 'OnStartPrompt':
             # the stack entry Pdb printed last (text of an interaction that could not prompt may precede it)
-            ms2 = re.findall(r'^> .*\((\d+)\)([^\n()]*)\(\)', e.get('prompt_text') or '', re.M)
+            ms3 = re.findall(r'^> (.*)\((\d+)\)([^\n()]*)\(\)', e.get('prompt_text') or '', re.M)
+            ms2 = [x[1:] for x in ms3]
             ms = [x[1] for x in ms2]
             tr[t]['prompts'].append({'event': e['event'], 'line': e['line_no'], 'file': e['file_name'], 'frame': e['frame_object_id'],
-                                     'func': ms[-1] if ms else '', 'text_line': int(ms2[-1][0]) if ms2 else None, 'at': order})
+                                     'func': ms[-1] if ms else '', 'text_line': int(ms2[-1][0]) if ms2 else None, 'text_file': ms3[-1][0] if ms3 else None, 'at': order})
         elif ty == 'OnEndPrompt':
             tr[t]['cmds'].append(e['command'])
     return tr
@@ -319,12 +320,13 @@ def oracle(job: dict, res: dict, ref: dict, per: dict, traces: dict, match: dict
             return False
         if not p['func']:
             return True
+        if p.get('text_line') is not None and (p['text_line'] != p['line'] or norm_file(p.get('text_file'), sfile) != norm_file(p['file'], sfile)):
+            # Pdb shows another frame than the event's (known finding 3): the function shown is not the event frame's;
+            # the event itself is at (file, line)
+            return any(a <= p['line'] <= b for sp in user_codes.values() for a, b in sp) or '<module>' in user_codes
         spans = user_codes.get(p['func'])
         if spans is None:
             return False
-        if p.get('text_line') is not None and p['text_line'] != p['line']:
-            # Pdb shows another frame than the event's (known finding 3): the function shown is not the event frame's
-            return any(a <= p['line'] <= b for sp in user_codes.values() for a, b in sp) or '<module>' in user_codes
         return p['func'] == '<module>' or any(a <= p['line'] <= b for a, b in spans)
 
     callable_off = job['form'] == 'callable' and not tm
@@ -527,6 +529,12 @@ def run(ctx, jobs: list, corr: Corr, seen: set, model: bool = True) -> None:
 
     for ji, (job, res) in enumerate(zip(jobs, results)):
         ref = res.get('reference')
+        if str(res.get('error') or '').startswith('build:') or str((res.get('reference') or {}).get('error') or '').startswith('build:'):
+            # the harness could not even build the statement (its own wrapper): never a disagreement between model and implementation
+            corr.extra['harness_build_failures'] = corr.extra.get('harness_build_failures', 0) + 1
+            ctx.notes.append(f'harness build failure, job {job["name"]} ({job["form"]}): {res.get("error")}')
+            ctx.log(f'NOTE: harness could not build {job["name"]} ({job["form"]}): {str(res.get("error"))[:160]}')
+            continue
         if res.get('error') == 'timeout':
             # three runs did not finish: not a disagreement between model and implementation but a run that hangs
             hist['failed_runs'] += 1
@@ -730,8 +738,9 @@ def correspond(ctx) -> Corr:
     jobs = gen_jobs(ctx.rng, ctx.tier)
     ctx.log(f'{len(jobs)} jobs')
     run(ctx, jobs, corr, seen)
-    run_options(ctx, corr, 120 if ctx.tier == 'quick' else 800)
+    run_options(ctx, corr, 120 if ctx.tier == 'quick' else 400)
     order_violations(corr)
+    corr.extra['programs_skipped_at_generation'] = progen.SKIPPED['invalid_programs']
     ctx.log(f'jobs={corr.evaluations} streams compared={corr.traces_validated} mismatches={len(corr.mismatches)} oracle hits={len(corr.violations)}')
     return corr
 
